@@ -95,6 +95,11 @@ pub struct Case {
     /// standalone proof check (an accepted proof must leave nothing behind that helps a later one)
     #[serde(default)]
     pub warmup: bool,
+    /// the studied submission, byte for byte, is shown to the gateway already while the history is being made - right
+    /// after the proving set was installed (before the rotations that follow it): 0 no, 1 to the standalone proof check,
+    /// 2 to the entry point studied later. A verdict reached then says nothing about later.
+    #[serde(default)]
+    pub shown_early: u8,
     /// entry-point sweep case (see sweep.rs); the other fields are ignored
     #[serde(default)]
     pub sweep: Option<crate::sweep::SweepCase>,
@@ -190,7 +195,7 @@ impl Property for C01 {
         }
     }
     fn fixed_cases(&self, _tier: Tier) -> Vec<Case> {
-        let blank = Case { domain: 0, retention: 0, initial: vec![], rotations: vec![], prover: 0, mask: MaskKind::Full, batch: vec![], perturb: Perturb::None, via_validate_proof: false, pre_approved: 0, warmup: false, sweep: None };
+        let blank = Case { domain: 0, retention: 0, initial: vec![], rotations: vec![], prover: 0, mask: MaskKind::Full, batch: vec![], perturb: Perturb::None, via_validate_proof: false, pre_approved: 0, warmup: false, shown_early: 0, sweep: None };
         crate::sweep::fixed_cases(300).into_iter().map(|s| Case { sweep: Some(s), ..blank.clone() }).collect()
     }
 
@@ -206,9 +211,9 @@ fn direct_strategy() -> BoxedStrategy<Case> {
     {
         (
             (any::<u8>(), 0u8..6, proptest::collection::vec(setgen(8), 1..4), proptest::collection::vec(setgen(8), 0..5)),
-            (prop_oneof![3 => Just(0u16), 2 => any::<u16>()], maskkind(), proptest::collection::vec(msgspec(), 1..5), perturb(), any::<bool>(), prop_oneof![3 => Just(0u8), 1 => Just(0xffu8), 1 => any::<u8>()], prop_oneof![2 => Just(false), 1 => Just(true)]),
+            (prop_oneof![3 => Just(0u16), 2 => any::<u16>()], maskkind(), proptest::collection::vec(msgspec(), 1..5), perturb(), any::<bool>(), prop_oneof![3 => Just(0u8), 1 => Just(0xffu8), 1 => any::<u8>()], prop_oneof![2 => Just(false), 1 => Just(true)], prop_oneof![3 => Just(0u8), 1 => Just(1u8), 1 => Just(2u8)]),
         )
-            .prop_map(|((domain, retention, initial, rotations), (prover, mask, batch, perturb, via, pre_approved, warmup))| Case {
+            .prop_map(|((domain, retention, initial, rotations), (prover, mask, batch, perturb, via, pre_approved, warmup, shown_early))| Case {
                 domain,
                 retention,
                 initial,
@@ -220,6 +225,7 @@ fn direct_strategy() -> BoxedStrategy<Case> {
                 via_validate_proof: via,
                 pre_approved,
                 warmup,
+                shown_early,
                 sweep: None,
             })
             .boxed()
@@ -242,35 +248,7 @@ impl C01 {
         for s in &sets[..n_init] {
             model.install(s.hash());
         }
-        for i in n_init..sets.len() {
-            let prev = sets[i - 1].clone();
-            let ok = gw.rotate(&env, &sets[i], &prev, prev.full_mask(), false);
-            ensure_p!(ok, "setup: honest rotation {} by the latest set was refused", i);
-            model.install(sets[i].hash());
-        }
-        ensure_p!(gw.client.epoch() == model.epoch, "epoch {} != model {}", gw.client.epoch(), model.epoch);
-        // the gateway may have been idle for a while (days derived from the domain byte so that saved cases keep their
-        // format): registered sets inside the window stay registered
-        let days_idle = [0u32, 0, 0, 0, 1, 61, 100, 150][(case.domain % 8) as usize];
-        if days_idle > 0 {
-            advance_ledgers(&env, 17280 * days_idle);
-            cx.label(if days_idle > 60 { "gateway_idle_for_more_than_60_days" } else { "gateway_idle_for_a_day" });
-        }
-        if case.domain / 32 % 2 == 1 {
-            // somebody re-delivers a rotation to a set that is already registered (signed by the latest set): whatever the
-            // gateway answers, no set may age by it
-            let latest = sets.last().unwrap().clone();
-            let again = sets[pick(case.prover, sets.len())].clone();
-            let _ = gw.rotate(&env, &again, &latest, latest.full_mask(), false);
-            cx.label("rotation_to_a_registered_set_attempted_before_the_submission");
-        }
-        if case.domain / 8 % 4 == 3 {
-            // the owner upgraded the gateway and completed the migration: signer sets, retention and domain are carried over
-            upgrade_and_migrate(&env, &gw.id).map_err(|e| format!("setup: {}", e))?;
-            cx.label("gateway_upgraded_and_migrated_before_the_submission");
-        }
         let dests: Vec<Address> = (0..3).map(|_| Address::generate(&env)).collect();
-
         // prover: newest first
         let pi = sets.len() - 1 - pick(case.prover, sets.len());
         let mut prover = sets[pi].clone();
@@ -278,17 +256,6 @@ impl C01 {
             prover = SetGen { seeds: vec![900, 901, 902], w: vec![WClass::One; 3], t: TClass::Total }.build(200);
             cx.label("never_installed_set");
         }
-        let age = model.epoch - model.by_hash.get(&prover.hash()).copied().unwrap_or(0);
-        if model.by_hash.contains_key(&prover.hash()) {
-            if age == 0 {
-                cx.label("prover_latest");
-            } else if age <= model.retention {
-                cx.label("prover_older_retained");
-            } else {
-                cx.label("prover_outdated");
-            }
-        }
-
         // signing mask
         let full = prover.full_mask();
         let tmask = {
@@ -447,6 +414,70 @@ impl C01 {
             }
         }
         let sub = Submission { proof, msgs: submitted.clone() };
+        // ---------------- history (the studied proof may be shown to the gateway while it is being made, see `shown_early`)
+        let mut early_approved = false;
+        let mut show_early = |when: usize| {
+            if case.shown_early % 3 == 0 || when != pi.max(n_init - 1) {
+                return;
+            }
+            let proof = sub.proof.to_soroban(&env);
+            if case.shown_early % 3 == 1 || case.via_validate_proof {
+                let _ = gw.client.try_validate_proof(&BytesN::from_array(&env, &submitted_dh), &proof);
+            } else {
+                let mut msgs = SVec::new(&env);
+                for m in &sub.msgs {
+                    msgs.push_back(Message {
+                        source_chain: sstr_bytes(&env, &m.0),
+                        message_id: sstr_bytes(&env, &m.1),
+                        source_address: sstr_bytes(&env, &m.2),
+                        contract_address: dests[m.3 as usize].clone(),
+                        payload_hash: BytesN::from_array(&env, &m.4),
+                    });
+                }
+                early_approved = matches!(gw.client.try_approve_messages(&msgs, &proof), Ok(Ok(())));
+            }
+            cx.label("studied_submission_shown_early_in_the_history");
+        };
+        show_early(n_init - 1);
+        for i in n_init..sets.len() {
+            let prev = sets[i - 1].clone();
+            let ok = gw.rotate(&env, &sets[i], &prev, prev.full_mask(), false);
+            ensure_p!(ok, "setup: honest rotation {} by the latest set was refused", i);
+            model.install(sets[i].hash());
+            show_early(i);
+        }
+        ensure_p!(gw.client.epoch() == model.epoch, "epoch {} != model {}", gw.client.epoch(), model.epoch);
+        // the gateway may have been idle for a while (days derived from the domain byte so that saved cases keep their
+        // format): registered sets inside the window stay registered
+        let days_idle = [0u32, 0, 0, 0, 1, 61, 100, 150][(case.domain % 8) as usize];
+        if days_idle > 0 {
+            advance_ledgers(&env, 17280 * days_idle);
+            cx.label(if days_idle > 60 { "gateway_idle_for_more_than_60_days" } else { "gateway_idle_for_a_day" });
+        }
+        if case.domain / 32 % 2 == 1 {
+            // somebody re-delivers a rotation to a set that is already registered (signed by the latest set): whatever the
+            // gateway answers, no set may age by it
+            let latest = sets.last().unwrap().clone();
+            let again = sets[pick(case.prover, sets.len())].clone();
+            let _ = gw.rotate(&env, &again, &latest, latest.full_mask(), false);
+            cx.label("rotation_to_a_registered_set_attempted_before_the_submission");
+        }
+        if case.domain / 8 % 4 == 3 {
+            // the owner upgraded the gateway and completed the migration: signer sets, retention and domain are carried over
+            upgrade_and_migrate(&env, &gw.id).map_err(|e| format!("setup: {}", e))?;
+            cx.label("gateway_upgraded_and_migrated_before_the_submission");
+        }
+        let age = model.epoch - model.by_hash.get(&prover.hash()).copied().unwrap_or(0);
+        if model.by_hash.contains_key(&prover.hash()) {
+            if age == 0 {
+                cx.label("prover_latest");
+            } else if age <= model.retention {
+                cx.label("prover_older_retained");
+            } else {
+                cx.label("prover_outdated");
+            }
+        }
+
 
         // ---------------- oracle
         let declared_hash = sub.proof.declared_hash();
@@ -494,7 +525,16 @@ impl C01 {
 
         // ---------------- earlier honest approvals of some of the submitted ids (by the latest set)
         let mut already: Vec<bool> = vec![false; sub.msgs.len()];
-        if !case.via_validate_proof && case.pre_approved != 0 {
+        if early_approved {
+            // the whole submitted batch was accepted back then: per slot, its first content is what got approved
+            for i in 0..sub.msgs.len() {
+                let m = &sub.msgs[i];
+                let first = sub.msgs.iter().find(|q| q.0 == m.0 && q.1 == m.1).unwrap();
+                already[i] = first == m;
+            }
+            cx.label("studied_batch_was_approved_when_shown_early");
+            cx.nontrivial();
+        } else if !case.via_validate_proof && case.pre_approved != 0 {
             let latest = sets.last().unwrap();
             let mut pre: Vec<Message> = vec![];
             for (i, m) in sub.msgs.iter().enumerate() {
